@@ -69,6 +69,46 @@ fn entries_str(es: &[xr::EntryView]) -> String {
 fn workers_str(params: &[xr::ParamsView], log: &[xr::Event], out: &mut Sink, what: &str) -> String {
     let mut parts = Vec::new();
     let mut ranges: Vec<(Option<Key>, Option<Key>)> = Vec::new();
+    // C13 (tracker law, lower side): an entry handed over although its key lies below the `new_high_range` of an earlier
+    // response to the same requester was held by the responder BELOW its `range.low` (the responder's low is set to every
+    // `new_high_range` it sends).  With the `BranchUpdater` convention (every node of a split gets the cutoff as
+    // `next_separator`) this happens for produced nodes; in BOTH stages it happens for the delete mark of a node that was merged away (the
+    // handed-over node's `next_separator` lies behind it).  A counter, not an oracle: the lower side of the tracker law is false.
+    for p in params {
+        let mut granted: Option<Key> = None;
+        for ev in log {
+            if let xr::Event::Response { requester, changed, new_high_range, new_right_neighbor } = ev {
+                if *requester != p.op_start {
+                    continue;
+                }
+                if let Some(g) = granted {
+                    if changed.iter().any(|e| e.key < g) {
+                        out.count(&format!("{what}_entry_held_below_low"));
+                    }
+                }
+                // a relink answer comes from a worker that leaves the chain: the next responder is another one
+                granted = if *new_right_neighbor == 0 { *new_high_range } else { None };
+            }
+        }
+    }
+    // C13: separators held by two trackers when the workers return (`T13_trackers_disjoint` is FALSE: directed family `dup`)
+    {
+        let mut seen: std::collections::BTreeMap<Key, usize> = Default::default();
+        for ev in log {
+            if let xr::Event::Final { worker, inner, .. } = ev {
+                for e in inner {
+                    if let Some(w0) = seen.insert(e.key, *worker) {
+                        if w0 != *worker {
+                            // legitimate (the duplicate branch of `filter_*_changeset` exists for it): one worker deleted the
+                            // node under this separator, another one produced a node under the same separator
+                            out.count(&format!("{what}_separator_in_two_trackers"));
+                        }
+                    }
+                }
+                out.add(&format!("{what}_final_tracker_keys"), inner.len() as u64);
+            }
+        }
+    }
     for p in params {
         let mut items = Vec::new();
         let mut fin = None;
@@ -764,6 +804,83 @@ fn gen_leaf_tail(r: &mut Rng, next_id: &mut usize, pn: &mut u32, out: &mut Sink,
     LScenario { leaves, changes, fanout: 16, desc: format!("leaf tail merges k={k}") }
 }
 
+/// directed family `dup` (the same separator in two trackers): the right worker's first leaf is under-full and merges with the
+/// next leaf `Y` (a delete mark under `sep(Y)` stays in its tracker); the left worker merges its under-full rest with the
+/// handed-over leaf and splits in the middle, the second half starts at `Y`'s first key — with the canonical separators
+/// (`separate(last key before, first key)`) the new leaf gets exactly `sep(Y)`
+fn gen_leaf_dup(r: &mut Rng, next_id: &mut usize, pn: &mut u32, out: &mut Sink) -> LScenario {
+    use nomt::verif_api::bit_ops::separate;
+    let mut p = r.bytes32();
+    p[0] = 0x40 | (p[0] & 0x3f);
+    let shapes: Vec<Vec<usize>> = vec![vec![900, 900, 900, 900], vec![700, 1000, 1000], vec![1100, 1100], vec![1000, 1000, 1000], vec![1000, 1000]];
+    let mut leaves: Vec<LLeaf> = Vec::new();
+    for (j, vs) in shapes.iter().enumerate() {
+        let entries: Vec<lu::Entry> = vs
+            .iter()
+            .enumerate()
+            .map(|(i, len)| {
+                let mut v = vec![j as u8; *len];
+                v[0] = i as u8;
+                (leaf_key(&p, j, i * 4), v, false)
+            })
+            .collect();
+        *pn += 1;
+        let sep = match leaves.last() {
+            None => [0u8; 32],
+            Some(prev) => separate(&prev.entries.last().unwrap().0, &entries[0].0),
+        };
+        let id = *next_id;
+        *next_id += 1;
+        out.line(format!("lleaf {} {} {} {}", id, hex(&sep), *pn, lentries_str(&entries)), "ok".into());
+        leaves.push(LLeaf { id, sep, pn: *pn, entries });
+    }
+    let changes: Vec<(Key, Option<Vec<u8>>)> = vec![
+        (leaves[0].entries[2].0, None),
+        (leaves[0].entries[3].0, None),
+        (leaves[1].entries[1].0, None),
+        (leaves[1].entries[2].0, None),
+    ];
+    LScenario { leaves, changes, fanout: 16, desc: "leaf dup: a produced leaf under the separator of a leaf the right worker merged away".into() }
+}
+
+/// the branch twin of `gen_leaf_dup` (separator of a branch node = its first key): `a` items stay in node 0
+fn gen_branch_dup(r: &mut Rng, next_id: &mut usize, pn: &mut u32, out: &mut Sink, a: usize) -> Option<BScenario> {
+    let p = r.bytes32();
+    let plen = 16usize;
+    let sizes = vec![198usize, 110, 108, 115, 115];
+    let mut level = Vec::new();
+    for (j, &n) in sizes.iter().enumerate() {
+        let keys: Vec<Key> = (0..n).map(|i| branch_key(&p, plen, j, i * 4)).collect();
+        let pl = prefix_len(&keys[0], &keys[n - 1]);
+        let items: Vec<(Key, u32)> = keys.iter().map(|k| {
+            *pn += 1;
+            (*k, *pn)
+        }).collect();
+        *pn += 1;
+        let bbn = *pn;
+        let h = catch_unwind(AssertUnwindSafe(|| bu::make_node(&items, n, pl, bbn))).ok()?;
+        let view = catch_unwind(AssertUnwindSafe(|| h.view())).ok()?;
+        if view.body_size > bu::BRANCH_NODE_BODY_SIZE {
+            return None;
+        }
+        let id = *next_id;
+        *next_id += 1;
+        out.line(
+            format!("node {} {} {} {} {}", id, view.bbn_pn, view.prefix_len, view.prefix_compressed, items_str(&view.items)),
+            format!("ok body={}", view.body_size),
+        );
+        level.push(BNode { id, handle: h, view });
+    }
+    let mut changes: Vec<(Key, Option<u32>)> = Vec::new();
+    for it in &level[0].view.items[a..] {
+        changes.push((it.0, None));
+    }
+    for it in &level[1].view.items[50..] {
+        changes.push((it.0, None));
+    }
+    Some(BScenario { level, changes, desc: format!("branch dup a={a}") })
+}
+
 fn run_leaf(ctx: &mut Ctx, sc: &LScenario, workers: usize, case: usize, out: &mut Sink) -> Option<Vec<(Key, Vec<u8>)>> {
     let ids = sc.leaves.iter().map(|l| l.id.to_string()).collect::<Vec<_>>().join(",");
     let keys: Vec<Key> = sc.changes.iter().map(|c| c.0).collect();
@@ -927,7 +1044,8 @@ pub fn run(seed: u64, cases: usize, out: &mut Sink) {
     let mut pn = 1000u32;
     let only: Option<usize> = std::env::var("VH_XR_ONLY").ok().and_then(|s| s.parse().ok());
     let ntail: usize = std::env::var("VH_XR_TAIL").ok().and_then(|s| s.parse().ok()).unwrap_or(TAIL);
-    let ndirected = 8usize + SWEEP + ntail;
+    let ndup = 8usize;
+    let ndirected = 8usize + SWEEP + ntail + ndup;
     for case in 0..cases + ndirected {
         let mut r = rng.fork();
         if let Some(o) = only {
@@ -937,14 +1055,17 @@ pub fn run(seed: u64, cases: usize, out: &mut Sink) {
         }
         let directed = if case < ndirected { Some(case) } else { None };
         let wcs = worker_counts(&mut r);
+        let dup = directed.filter(|d| *d >= 8 + SWEEP + ntail).map(|d| d - 8 - SWEEP - ntail);
+        let directed = if dup.is_some() { None } else { directed };
         let tail = directed.filter(|d| *d >= 8 + SWEEP).map(|d| d - 8 - SWEEP);
         // branch stage
-        let bsc = match tail {
-            Some(t) => {
+        let bsc = match (dup, tail) {
+            (Some(d), _) => gen_branch_dup(&mut r, &mut next_node, &mut pn, out, 56 + d),
+            (_, Some(t)) => {
                 let (c, aoff, plen) = tail_params(t / 4);
                 gen_branch_tail(&mut r, &mut next_node, &mut pn, out, t % 4 + 1, c, aoff, plen)
             }
-            None => gen_branch(&mut r, &mut next_node, &mut pn, out, directed),
+            _ => gen_branch(&mut r, &mut next_node, &mut pn, out, directed),
         };
         if let Some(sc) = bsc {
             out.mark_case(format!("case {case} branch: {}", sc.desc));
@@ -964,6 +1085,8 @@ pub fn run(seed: u64, cases: usize, out: &mut Sink) {
         }
         // leaf stage
         let sc = match tail {
+            _ if dup == Some(0) => gen_leaf_dup(&mut r, &mut next_leaf, &mut pn, out),
+            _ if dup.is_some() => continue,
             Some(t) if t < 4 => gen_leaf_tail(&mut r, &mut next_leaf, &mut pn, out, t % 4 + 1),
             Some(_) => continue,
             None => gen_leaf(&mut r, &mut next_leaf, &mut pn, out, directed),
